@@ -84,6 +84,12 @@ class UnitarySerializedEmulator(IndependentSubcircuitsBackend):
                     # (val may refer to it through map aliases).
                     qind.append(val.resolve_qubit()[1])
 
+            if len(set(qind)) != len(qind):
+                # The index arithmetic below needs distinct qubits
+                raise JaqalError(
+                    f"Gate {gate.name} is applied to the same qubit more than once"
+                )
+
             # This is the dense submatrix
             dsub = gatedef.ideal_unitary(*argv)
 
